@@ -504,8 +504,10 @@ static void coopCase(Rng & rng, int force = 0) {   // force: 1 = well-formed arg
         Matrix2D m(rows, cols);
         l << rows << cols;
         size_t badRow = rng.below(rows);
+        const bool padZero = rng.coin();
         for (size_t j = 0; j < rows; ++j) {
             V1 row = makeRow(rng, cols, (tmode == 3 && i == badI && j == badRow) ? N_GOOD + (int)rng.below(N_KINDS - N_GOOD) : (int)rng.below(3));
+            if (tmode == 2 && i == badI && padZero) { row = makeRow(rng, cols - 1, (int)rng.below(2)); row.push_back(0.0); }   // extra column of zeros
             for (size_t x = 0; x < cols; ++x) { m(j, x) = row[x]; l << row[x]; }
         }
         tm.push_back(m);
@@ -574,8 +576,8 @@ void verif_case(Rng & rng, long idx, const std::string & tier) {
         case 0: isprobCase(rng); break;
         case 1: amdpCase<false>(rng, idx); break;
         case 2: amdpCase<true>(rng, idx); break;
-        case 3: pushCase(rng); break;
-        case 4: coopCase(rng); break;
+        case 3: pushCase(rng); pushCase(rng); break;
+        case 4: for (int i = 0; i < 8; ++i) coopCase(rng); break;
         case 5: case 11: historyCase<MDP::Model>(rng, tier); break;
         case 6: case 12: historyCase<MDP::SparseModel>(rng, tier); break;
         case 7: case 13: historyCase<POMDP::Model<MDP::Model>>(rng, tier); break;
